@@ -291,11 +291,39 @@ class NpShim:
         return np.zeros_like(a, dtype=dtype, **kw)
 
     def full(self, shape, fill_value, dtype=None, **kw):
+        if isinstance(fill_value, float) and fill_value != fill_value:
+            # a NaN-filled output buffer: plain float NaN elements (flatten_result reports them as {"nan": True};
+            # arithmetic of a NaN element with a symbol still raises `non-finite constant`)
+            out = np.empty(shape, dtype=object)
+            out[...] = float("nan")
+            return out
         if isinstance(fill_value, Sym) or self._is_float_dtype(dtype) or isinstance(fill_value, float):
             out = np.empty(shape, dtype=object)
             out[...] = self._t.lift(fill_value)
             return out
         return np.full(shape, fill_value, dtype=dtype, **kw)
+
+    full._nan_aware = True
+
+    def divide(self, a, b, out=None, where=True, **kw):
+        """np.divide with out= / where= on symbolic arrays: a / b where the (concrete) mask is true, `out` elsewhere."""
+        aa, bb = np.asarray(a), np.asarray(b)
+        if aa.dtype != object and bb.dtype != object and not isinstance(a, Sym) and not isinstance(b, Sym) \
+                and (out is None or np.asarray(out).dtype != object):
+            return np.divide(a, b, out=out, where=where, **kw) if out is not None or where is not True else np.divide(a, b, **kw)
+        aa, bb, ww = np.broadcast_arrays(aa, bb, np.asarray(where, dtype=bool))
+        res = np.empty(aa.shape, dtype=object)
+        if out is not None:
+            res[...] = np.asarray(out, dtype=object)
+        elif not ww.all():
+            raise TraceError("np.divide with where= but without out=")
+        fr, fa, fb, fw = res.reshape(-1), aa.reshape(-1), bb.reshape(-1), ww.reshape(-1)
+        for i in range(fr.shape[0]):
+            if fw[i]:
+                fr[i] = self._t.lift(fa[i]) / self._t.lift(fb[i])
+        return res
+
+    true_divide = divide
 
     def sign(self, x):
         if isinstance(x, Sym):
@@ -409,7 +437,7 @@ class NpShim:
 def patched_numpy(tracer, prefixes=("polliwog", "vg")):
     """Swap the global `np` of every loaded polliwog / vg module for the shim (run time only)."""
     shim = NpShim(tracer)
-    saved = []
+    saved, consts = [], []
     for name, mod in list(sys.modules.items()):
         if mod is None or not any(name == p or name.startswith(p + ".") for p in prefixes):
             continue
@@ -420,11 +448,24 @@ def patched_numpy(tracer, prefixes=("polliwog", "vg")):
             if d.get(k) is np:
                 saved.append((d, k))
                 d[k] = shim
+        # dtype constants captured at import time (`POSITION_DTYPE = np.float64` at module or class level) would bypass
+        # the shim: `x.astype(POSITION_DTYPE)` on a symbolic array must keep the symbols, so they get the same proxy
+        for k, v in list(d.items()):
+            if v is np.float64 and k not in ("np", "numpy"):
+                consts.append((mod, k, v))
+                setattr(mod, k, _ShimFloat64)
+            elif isinstance(v, type) and getattr(v, "__module__", None) == name:
+                for ck, cv in list(vars(v).items()):
+                    if cv is np.float64:
+                        consts.append((v, ck, cv))
+                        setattr(v, ck, _ShimFloat64)
     try:
         yield shim
     finally:
         for d, k in saved:
             d[k] = np
+        for owner, k, v in consts:
+            setattr(owner, k, v)
 
 
 # ---------------------------------------------------------------------------------------------
